@@ -1991,13 +1991,19 @@ int xmp_start_player(xmp_context opaque, int rate, int format)
 
 #ifndef LIBXMP_CORE_PLAYER
     err2:
+	ret = -XMP_ERROR_SYSTEM;
+	for (i = 0; i < p->virt.virt_channels; i++) {
+		libxmp_release_channel_extras(ctx, &p->xc_data[i]);
+	}
 	free(p->xc_data);
 	p->xc_data = NULL;
 #endif
     err1:
 	free(f->loop);
 	f->loop = NULL;
+	libxmp_virt_off(ctx);
     err:
+	libxmp_mixer_off(ctx);
 	return ret;
 }
 
